@@ -277,6 +277,7 @@ class Check:
                            'holding': sum(o.status == HOLDS for o in rr.obligations), 'sites': rr.sites,
                            'paths': rr.paths, 'notes': rr.notes, 'error': rr.error} for rr in self.rules],
                 'files_parsed': len(repo.modules) if repo else 0,
+                'vocabulary_recovery': getattr(repo, 'vocab_log', []) if repo else [],
                 'tree_digest': repo.digest if repo else None,
                 'findings': [o.to_json() for o in violations],
                 'known_findings_reported': [o.to_json() for o, _ in knowns],
